@@ -8,6 +8,10 @@ Open Scope Z_scope.
 (* ------------------------------------------------------------------ *)
 (* lists *)
 
+(* right-nest every ++ and compute it on explicit heads *)
+Ltac lnorm := repeat (rewrite <- app_assoc); cbn [app];
+              repeat (rewrite <- app_assoc); cbn [app].
+
 Lemma rv_rev (l : list Z) : rv l = rev l.
 Proof. unfold rv. rewrite rev_append_rev, app_nil_r. reflexivity. Qed.
 
@@ -57,11 +61,6 @@ Proof.
       exists k. reflexivity.
 Qed.
 
-Definition occurs (p s : list Z) : Prop := exists x y, s = x ++ p ++ y.
-Definition ends_lf (l : bytes) : Prop := exists z, l = z ++ [10].
-Definition no_inner_crlf (l : bytes) : Prop :=
-  forall x y, l = x ++ [13; 10] ++ y -> y = [].
-
 (* where a piece without inner CRLF that starts in c2 ++ CRLF ++ z ends *)
 Lemma piece_cases (l u' c2 z : bytes) :
   l ++ u' = c2 ++ [13; 10] ++ z -> no_inner_crlf l ->
@@ -70,12 +69,9 @@ Lemma piece_cases (l u' c2 z : bytes) :
      (m = [13] /\ c2b = [] /\ u' = 10 :: z) \/
      (m = [13; 10] /\ c2b = [] /\ u' = z)).
 Proof.
-  intros H Hn. apply app_eq_app in H. destruct H as [k [[H1 H2] | [H1 H2]]]; [|
-    (* c2 = l ++ k *)
-    exists l, k, []. rewrite app_nil_r.
-    split; [reflexivity|]. split; [exact H1|]. left. split; [reflexivity|exact H2]].
-  (* l = c2 ++ k, 13::10::z = k ++ u' *)
-  - destruct k as [|k1 k].
+  intros H Hn. apply app_eq_app in H. destruct H as [k [[H1 H2] | [H1 H2]]].
+  - (* l = c2 ++ k, 13::10::z = k ++ u' *)
+    destruct k as [|k1 k].
     + exists l, [], []. rewrite !app_nil_r. cbn [app] in H2.
       rewrite app_nil_r in H1. subst c2.
       split; [reflexivity|]. split; [reflexivity|]. left.
@@ -89,6 +85,10 @@ Proof.
         cbn [app] in H2. exists c2, [], [13; 10]. rewrite app_nil_r.
         split; [exact H1|]. split; [reflexivity|]. right. right.
         split; [reflexivity|]. split; [reflexivity|]. symmetry. exact H2.
+  - (* c2 = l ++ k *)
+    exists l, k, []. rewrite app_nil_r.
+    split; [reflexivity|]. split; [exact H1|]. left.
+    split; [reflexivity|exact H2].
 Qed.
 
 (* ------------------------------------------------------------------ *)
@@ -147,7 +147,8 @@ Qed.
 Lemma strip_nil_all l : forallb is_ws l = true -> strip l = [].
 Proof.
   intros H. unfold strip, strip_by. rewrite rstrip_by_rev.
-  rewrite lstrip_all by (rewrite forallb_rev; exact H). reflexivity.
+  rewrite (lstrip_all is_ws (rev l)) by (rewrite forallb_rev; exact H).
+  reflexivity.
 Qed.
 
 (* ------------------------------------------------------------------ *)
@@ -200,3 +201,481 @@ Proof.
       * intros H. injection H as <- <- <-. rewrite app_nil_r.
         repeat split; intros; discriminate.
 Qed.
+
+(* ------------------------------------------------------------------ *)
+(* boundaries *)
+
+Lemma graphic_range c : graphic c = true -> 33 <= c <= 126.
+Proof. unfold graphic. intros H. apply andb_true_iff in H as [H1 H2].
+  apply Z.leb_le in H1, H2. lia. Qed.
+Lemma printable_range c : printable c = true -> 32 <= c <= 126.
+Proof. unfold printable. intros H. apply andb_true_iff in H as [H1 H2].
+  apply Z.leb_le in H1, H2. lia. Qed.
+
+Lemma is_ws_false c : 33 <= c <= 126 -> is_ws c = false.
+Proof.
+  intros H. unfold is_ws.
+  replace (c =? 32) with false by (symmetry; apply Z.eqb_neq; lia).
+  replace (c <=? 13) with false by (symmetry; apply Z.leb_gt; lia).
+  rewrite andb_false_r. reflexivity.
+Qed.
+
+Lemma boundary_ok_facts b : boundary_ok b = true ->
+  (forall x, In x b -> 32 <= x <= 126) /\
+  (exists b0 c, b = b0 ++ [c] /\ 33 <= c <= 126) /\ len b <= 201.
+Proof.
+  unfold boundary_ok. intros H.
+  assert (Hb : b = rev (rev b)) by (rewrite rev_involutive; reflexivity).
+  destruct (rev b) as [|c t]; [discriminate|].
+  apply andb_true_iff in H as [H12 H3]. apply andb_true_iff in H12 as [H1 H2].
+  apply graphic_range in H1. apply Z.leb_le in H3.
+  cbn [rev] in Hb. split; [|split].
+  - intros x Hx. rewrite Hb in Hx. apply in_app_or in Hx as [Hx|Hx].
+    + apply in_rev in Hx. rewrite forallb_forall in H2.
+      apply printable_range. apply H2. exact Hx.
+    + destruct Hx as [<-|[]]. lia.
+  - exists (rev t), c. split; [exact Hb | exact H1].
+  - rewrite Hb, len_app. unfold len in *. rewrite rev_length.
+    cbn [List.length]. lia.
+Qed.
+
+Lemma boundary_ok_valid b : boundary_ok b = true -> valid_boundary b = true.
+Proof.
+  unfold boundary_ok, valid_boundary. rewrite rv_rev.
+  destruct (rev b) as [|c t]; [discriminate|]. intros H.
+  assert (Hc : c =? 10 = false).
+  { apply andb_true_iff in H as [H1 _]. apply andb_true_iff in H1 as [H2 _].
+    apply graphic_range in H2. apply Z.eqb_neq. lia. }
+  rewrite Hc. exact H.
+Qed.
+
+Lemma dashb_chars b x : (forall y, In y b -> 32 <= y <= 126) ->
+  In x (dashb b) -> 32 <= x <= 126.
+Proof.
+  intros Hb [<-|[<-|Hx]]; try lia. apply Hb. exact Hx.
+Qed.
+
+(* ------------------------------------------------------------------ *)
+(* one round of read_lines_to_outerboundary *)
+
+Lemma carry_spec d l : exists dpre odelim,
+  carry d l = (dpre ++ l, odelim) /\ odelim ++ dpre = d /\
+  (dpre = [] \/ dpre = [13]).
+Proof.
+  unfold carry. destruct (lz_eqb d [13]) eqn:E.
+  - apply lz_eqb_eq in E. subst d. exists [13], []. auto.
+  - exists [], d. rewrite app_nil_r. auto.
+Qed.
+
+Lemma boundary_hit_some nb lb line lfend k :
+  boundary_hit nb lb line lfend = Some k ->
+  lfend = true /\ ((k = 0 /\ exists t, line = nb ++ t) \/
+                   (k = 1 /\ exists t, line = lb ++ t)).
+Proof.
+  unfold boundary_hit. destruct (prefixb [45; 45] line && lfend) eqn:E;
+    [|discriminate].
+  apply andb_true_iff in E as [_ ->]. cbv zeta. intros H.
+  split; [reflexivity|].
+  destruct (rstrip_prefix is_ws line) as [t Ht]. fold rstrip in Ht.
+  destruct (lz_eqb (rstrip line) nb) eqn:E1.
+  - injection H as <-. apply lz_eqb_eq in E1. left.
+    split; [reflexivity|]. exists t. rewrite <- E1. exact Ht.
+  - destruct (lz_eqb (rstrip line) lb) eqn:E2; [|discriminate].
+    injection H as <-. apply lz_eqb_eq in E2. right.
+    split; [reflexivity|]. exists t. rewrite <- E2. exact Ht.
+Qed.
+
+Lemma ends_lf_app a l : ends_lf l -> ends_lf (a ++ l).
+Proof. intros [z ->]. exists (a ++ z). rewrite app_assoc. reflexivity. Qed.
+
+(* phase A: the delimiter CRLF--b is still completely unread *)
+Lemma step_content b c w d lfend l u' c2 z :
+  (forall x, In x b -> 32 <= x <= 126) ->
+  ~ occurs (10 :: dashb b) (10 :: c) ->
+  w ++ d ++ c2 = c ->
+  (lfend = true -> w ++ d = [] \/ ends_lf (w ++ d)) ->
+  l <> [] -> no_inner_crlf l -> l ++ u' = c2 ++ [13; 10] ++ z ->
+  exists piece d' lf',
+    rlob_step (dashb b) (dashb b ++ [45; 45]) d lfend l = SCont piece d' lf' /\
+    (w ++ piece) ++ d' = (w ++ d) ++ l /\
+    (lf' = true -> ends_lf ((w ++ piece) ++ d')) /\
+    (d' = [13] -> exists y, l = y ++ [13]) /\
+    ((exists c2', u' = c2' ++ [13; 10] ++ z /\ (w ++ piece) ++ d' ++ c2' = c) \/
+     (d' = [13] /\ w ++ piece = c /\ u' = 10 :: z) \/
+     (d' = [13; 10] /\ w ++ piece = c /\ lf' = true /\ u' = z)).
+Proof.
+  intros Hb Hocc Hc Hlf Hne Hin Hcat.
+  destruct (piece_cases l u' c2 z Hcat Hin) as (l1 & c2b & m & Hl & Hc2 & Hm).
+  destruct (carry_spec d l) as (dpre & odelim & Hcarry & Hd & Hdpre).
+  unfold rlob_step. rewrite Hcarry.
+  assert (Hhit : boundary_hit (dashb b) (dashb b ++ [45; 45]) (dpre ++ l) lfend
+                 = None).
+  { destruct (boundary_hit (dashb b) (dashb b ++ [45; 45]) (dpre ++ l) lfend)
+      as [hit|] eqn:E; [|reflexivity]. exfalso.
+    apply boundary_hit_some in E as [Elf E].
+    assert (Hpre : exists t, dpre ++ l = dashb b ++ t).
+    { destruct E as [[_ [t Ht]] | [_ [t Ht]]].
+      - exists t. exact Ht.
+      - exists ([45; 45] ++ t). rewrite Ht, <- app_assoc. reflexivity. }
+    destruct Hpre as [t Ht].
+    destruct Hdpre as [-> | ->]; [|discriminate Ht].
+    cbn [app] in Ht, Hd. rewrite app_nil_r in Hd. subst odelim.
+    rewrite Hl in Ht.
+    assert (H13 : ~ In 13 (dashb b)).
+    { intros Hi. apply (dashb_chars b 13 Hb) in Hi. lia. }
+    destruct (app_prefix_clean l1 m (dashb b) t 13 Ht H13) as [k Hk].
+    { destruct Hm as [[-> _] | [[-> _] | [-> _]]]; eauto. }
+    apply Hocc. specialize (Hlf Elf). rewrite <- Hc, Hc2, Hk.
+    destruct Hlf as [Hlf | [y Hlf]].
+    - exists [], (k ++ c2b). rewrite app_assoc, Hlf. lnorm. reflexivity.
+    - exists (10 :: y), (k ++ c2b). rewrite app_assoc, Hlf. lnorm.
+      reflexivity. }
+  rewrite Hhit.
+  assert (Hwd : forall r, w ++ odelim ++ dpre ++ r = (w ++ d) ++ r).
+  { intros r. rewrite <- Hd, <- !app_assoc. reflexivity. }
+  destruct Hm as [[-> Hu] | [[-> [-> Hu]] | [-> [-> Hu]]]].
+  - (* the piece ends inside the content *)
+    rewrite app_nil_r in Hl. subst l1.
+    destruct (split_end (dpre ++ l)) as [[body d'] lf'] eqn:Es.
+    apply split_end_spec in Es as (Hline & Hlf' & Hcr).
+    exists (odelim ++ body), d', lf'.
+    assert (Hall : (w ++ odelim ++ body) ++ d' = (w ++ d) ++ l).
+    { rewrite <- Hwd, Hline, <- !app_assoc. reflexivity. }
+    split; [reflexivity|]. split; [exact Hall|]. split; [|split].
+    + intros E. rewrite Hall. apply ends_lf_app.
+      specialize (Hlf' E). destruct Hdpre as [-> | ->]; [exact Hlf'|].
+      destruct Hlf' as [y Hy]. destruct (exists_last Hne) as (l' & x & ->).
+      change ([13] ++ l' ++ [x]) with ((13 :: l') ++ [x]) in Hy.
+      apply app_inj_tail in Hy as [_ ->].
+      exists l'. reflexivity.
+    + intros E. destruct (Hcr E) as [y Hy].
+      destruct Hdpre as [-> | ->]; [exists y; exact Hy|].
+      destruct (exists_last Hne) as (l' & x & ->).
+      change ([13] ++ l' ++ [x]) with ((13 :: l') ++ [x]) in Hy.
+      apply app_inj_tail in Hy as [_ ->].
+      exists l'. reflexivity.
+    + left. exists c2b. split; [exact Hu|].
+      rewrite app_assoc, Hall, <- Hc, Hc2, <- !app_assoc. reflexivity.
+  - (* the piece ends between CR and LF of the delimiter *)
+    rewrite app_nil_r in Hc2. subst l1.
+    rewrite Hl, app_assoc, split_end_cr.
+    exists (odelim ++ dpre ++ c2), [13], false.
+    split; [reflexivity|]. split; [|split; [discriminate|split]].
+    + rewrite <- Hwd. lnorm. reflexivity.
+    + intros _. exists c2. reflexivity.
+    + right. left. split; [reflexivity|]. split; [|exact Hu].
+      rewrite Hwd, <- Hc, <- app_assoc. reflexivity.
+  - (* the piece ends right before the dash-boundary *)
+    rewrite app_nil_r in Hc2. subst l1.
+    rewrite Hl, app_assoc, split_end_crlf.
+    exists (odelim ++ dpre ++ c2), [13; 10], true.
+    split; [reflexivity|]. split; [|split; [|split; [discriminate|]]].
+    + rewrite <- Hwd. lnorm. reflexivity.
+    + intros _. exists ((w ++ odelim ++ dpre ++ c2) ++ [13]).
+      lnorm. reflexivity.
+    + right. right. split; [reflexivity|]. split; [|split; [reflexivity|exact Hu]].
+      rewrite Hwd, <- Hc, <- app_assoc. reflexivity.
+Qed.
+
+(* phase B: a cut separated the CR of the delimiter from its LF *)
+Lemma step_lone_lf nb lb lfend :
+  rlob_step nb lb [13] lfend [10] = SCont [] [13; 10] true.
+Proof. reflexivity. Qed.
+
+Lemma lz_eqb_app_neq a t : t <> [] -> lz_eqb (a ++ t) a = false.
+Proof.
+  intros Ht. apply lz_eqb_neq. intros E.
+  apply (f_equal (@List.length Z)) in E. rewrite app_length in E.
+  destruct t; [congruence|]. cbn [List.length] in E. lia.
+Qed.
+
+Lemma is_blank_ws c : is_blank_c c = true -> is_ws c = true.
+Proof.
+  unfold is_blank_c, is_ws. intros H. apply orb_true_iff in H as [H|H];
+    apply Z.eqb_eq in H; subst c; reflexivity.
+Qed.
+
+(* phase C: the delimiter line *)
+Lemma step_delimiter b last pad eol :
+  boundary_ok b = true -> forallb is_blank_c pad = true ->
+  (eol = [13; 10] \/ eol = []) ->
+  rlob_step (dashb b) (dashb b ++ [45; 45]) [13; 10] true
+            (bline b last pad ++ eol) = SBreak (if last then 1 else 0).
+Proof.
+  intros Hb Hpad Heol.
+  destruct (boundary_ok_facts b Hb) as (_ & (b0 & c & -> & Hc) & _).
+  assert (Hws : forallb is_ws (pad ++ eol) = true).
+  { rewrite forallb_app. apply andb_true_iff. split.
+    - rewrite forallb_forall in *. intros x Hx. apply is_blank_ws, Hpad, Hx.
+    - destruct Heol as [-> | ->]; reflexivity. }
+  unfold rlob_step, carry.
+  replace (lz_eqb [13; 10] [13]) with false by reflexivity.
+  unfold boundary_hit.
+  assert (Hp : prefixb [45; 45] (bline (b0 ++ [c]) last pad ++ eol) = true).
+  { unfold bline, dashb. cbn [app prefixb]. rewrite !Z.eqb_refl. reflexivity. }
+  rewrite Hp. cbn [andb]. cbv zeta.
+  destruct last.
+  - assert (Hr : rstrip (bline (b0 ++ [c]) true pad ++ eol)
+                 = dashb (b0 ++ [c]) ++ [45; 45]).
+    { unfold bline, rstrip.
+      replace ((dashb (b0 ++ [c]) ++ [45; 45] ++ pad) ++ eol)
+        with ((dashb (b0 ++ [c]) ++ [45]) ++ [45] ++ (pad ++ eol))
+        by (lnorm; reflexivity).
+      rewrite rstrip_app_ws; [lnorm; reflexivity | reflexivity | exact Hws]. }
+    rewrite Hr. rewrite lz_eqb_app_neq by discriminate.
+    rewrite lz_eqb_refl. reflexivity.
+  - assert (Hr : rstrip (bline (b0 ++ [c]) false pad ++ eol)
+                 = dashb (b0 ++ [c])).
+    { unfold bline, rstrip, dashb.
+      replace (((45 :: 45 :: b0 ++ [c]) ++ [] ++ pad) ++ eol)
+        with ((45 :: 45 :: b0) ++ [c] ++ (pad ++ eol))
+        by (lnorm; reflexivity).
+      rewrite rstrip_app_ws; [lnorm; reflexivity | apply is_ws_false; exact Hc
+                             | exact Hws]. }
+    rewrite Hr, lz_eqb_refl. reflexivity.
+Qed.
+
+Lemma limit_hit_false limit clen nread :
+  limit_ok limit clen -> nread <= clen + 2 -> limit_hit limit nread = false.
+Proof.
+  unfold limit_ok, limit_hit. destruct limit as [L|]; [|reflexivity].
+  intros [H|H] Hn.
+  - replace (0 <=? L) with false by (symmetry; apply Z.leb_gt; lia).
+    reflexivity.
+  - replace (L <=? nread) with false by (symmetry; apply Z.leb_gt; lia).
+    apply andb_false_r.
+Qed.
+
+(* ------------------------------------------------------------------ *)
+(* what the contract says about complete lines *)
+
+Lemma not_ends_lf_in l x : ~ In 10 x -> (exists t, x = l ++ t) -> l <> [] ->
+  ~ ends_lf l.
+Proof.
+  intros Hx [t ->] Hne [z ->]. apply Hx. apply in_or_app. left.
+  apply in_or_app. right. left. reflexivity.
+Qed.
+
+Section Reader.
+  Variable St : Type.
+  Variable rl : Z -> St -> bytes * St.
+  Variable rem : St -> bytes.
+  Variable P : St -> Prop.
+  Hypothesis G : good_reader St rl rem P.
+
+  Lemma read_line_crlf lim s x rest :
+    P s -> rem s = x ++ [13; 10] ++ rest -> ~ In 10 x ->
+    (lim < 0 \/ len x + 2 <= lim) ->
+    fst (rl lim s) = x ++ [13; 10] /\ rem (snd (rl lim s)) = rest.
+  Proof.
+    intros Hs Hrem Hx Hlim.
+    pose proof (gr_concat _ _ _ _ G lim s Hs) as Hcat.
+    pose proof (gr_line _ _ _ _ G lim s Hs) as Hin.
+    pose proof (gr_full _ _ _ _ G lim s Hs) as Hfull.
+    assert (Hne : fst (rl lim s) <> []).
+    { apply (gr_progress _ _ _ _ G); auto.
+      - pose proof (len_nonneg x). lia.
+      - rewrite Hrem. destruct x; discriminate. }
+    set (l := fst (rl lim s)) in *. set (s' := snd (rl lim s)) in *.
+    rewrite Hrem in Hcat.
+    destruct (piece_cases l (rem s') x rest Hcat Hin)
+      as (l1 & c2b & m & Hl & Hc2 & Hm).
+    destruct Hm as [[-> Hu] | [[-> [-> Hu]] | [-> [-> Hu]]]].
+    - exfalso. rewrite app_nil_r in Hl.
+      assert (Hnl : ~ ends_lf l).
+      { apply (not_ends_lf_in l x Hx); [|exact Hne]. exists c2b.
+        rewrite Hl. exact Hc2. }
+      destruct (Hfull Hnl) as [Hf | Hf].
+      + assert (len l <= len x) by (rewrite Hc2, <- Hl, len_app;
+                                    pose proof (len_nonneg c2b); lia).
+        lia.
+      + rewrite Hu in Hf. destruct c2b; discriminate.
+    - exfalso. rewrite app_nil_r in Hc2. subst l1.
+      assert (Hnl : ~ ends_lf l).
+      { intros [y Hy]. rewrite Hl in Hy. apply app_inj_tail in Hy as [_ Hy].
+        discriminate. }
+      destruct (Hfull Hnl) as [Hf | Hf].
+      + rewrite Hl, len_app in Hf. change (len [13]) with 1 in Hf. lia.
+      + rewrite Hu in Hf. discriminate.
+    - rewrite app_nil_r in Hc2. subst l1. split; [exact Hl | exact Hu].
+  Qed.
+
+  Lemma read_line_eof lim s x :
+    P s -> rem s = x -> x <> [] -> ~ In 10 x ->
+    (lim < 0 \/ len x + 1 <= lim) ->
+    fst (rl lim s) = x /\ rem (snd (rl lim s)) = [].
+  Proof.
+    intros Hs Hrem Hxne Hx Hlim.
+    pose proof (gr_concat _ _ _ _ G lim s Hs) as Hcat.
+    pose proof (gr_full _ _ _ _ G lim s Hs) as Hfull.
+    assert (Hne : fst (rl lim s) <> []).
+    { apply (gr_progress _ _ _ _ G); auto.
+      - pose proof (len_nonneg x). lia.
+      - rewrite Hrem. exact Hxne. }
+    set (l := fst (rl lim s)) in *. set (s' := snd (rl lim s)) in *.
+    rewrite Hrem in Hcat.
+    assert (Hnl : ~ ends_lf l).
+    { apply (not_ends_lf_in l x Hx); [|exact Hne]. exists (rem s').
+      symmetry. exact Hcat. }
+    destruct (Hfull Hnl) as [Hf | Hf].
+    - exfalso. assert (len l <= len x) by (rewrite <- Hcat, len_app;
+                                           pose proof (len_nonneg (rem s')); lia).
+      lia.
+    - rewrite Hf, app_nil_r in Hcat. split; [exact Hcat | exact Hf].
+  Qed.
+End Reader.
+
+(* ------------------------------------------------------------------ *)
+(* (1) read_lines_to_outerboundary returns exactly the content *)
+
+Lemma concat_snoc (ps : list bytes) p : List.concat (ps ++ [p]) = List.concat ps ++ p.
+Proof. rewrite concat_app. cbn [List.concat]. rewrite app_nil_r. reflexivity. Qed.
+
+Lemma bline_no_lf b last pad :
+  boundary_ok b = true -> forallb is_blank_c pad = true ->
+  ~ In 10 (bline b last pad).
+Proof.
+  intros Hb Hpad Hi. destruct (boundary_ok_facts b Hb) as (Hc & _ & _).
+  unfold bline in Hi. apply in_app_or in Hi as [Hi|Hi].
+  - apply (dashb_chars b 10 Hc) in Hi. lia.
+  - apply in_app_or in Hi as [Hi|Hi].
+    + destruct last; [|destruct Hi].
+      destruct Hi as [Hi|[Hi|[]]]; discriminate.
+    + rewrite forallb_forall in Hpad. apply Hpad in Hi. discriminate.
+Qed.
+
+Lemma bline_len b last pad : 2 <= len (bline b last pad).
+Proof.
+  unfold bline, dashb. rewrite len_app, !len_cons.
+  pose proof (len_nonneg b).
+  pose proof (len_nonneg ((if last then [45; 45] else []) ++ pad)). lia.
+Qed.
+
+Section Exact.
+  Variable St : Type.
+  Variable rl : Z -> St -> bytes * St.
+  Variable rem : St -> bytes.
+  Variable P : St -> Prop.
+  Hypothesis G : good_reader St rl rem P.
+  Variable maxline : Z.
+  Variables (b : bytes) (last : bool) (pad c eol rest : bytes).
+  Variable limit : option Z.
+  Hypothesis Hb : boundary_ok b = true.
+  Hypothesis Hpad : forallb is_blank_c pad = true.
+  Hypothesis Heol : eol = [13; 10] \/ (eol = [] /\ rest = []).
+  Hypothesis Hmax : len (bline b last pad) + 2 <= maxline.
+  Hypothesis Hocc : ~ occurs (10 :: dashb b) (10 :: c).
+  Hypothesis Hlim : limit_ok limit (len c).
+
+  Let tailz : bytes := bline b last pad ++ eol ++ rest.
+  Let nfin : Z := len c + 2 + len (bline b last pad) + len eol.
+
+  Inductive phase (w d : bytes) (lfend : bool) (s : St) : Prop :=
+    | PhA c2 : rem s = c2 ++ [13; 10] ++ tailz -> w ++ d ++ c2 = c ->
+               (lfend = true -> w ++ d = [] \/ ends_lf (w ++ d)) ->
+               phase w d lfend s
+    | PhB : d = [13] -> w = c -> rem s = 10 :: tailz ->
+            fst (rl maxline s) = [10] -> phase w d lfend s
+    | PhC : d = [13; 10] -> w = c -> lfend = true -> rem s = tailz ->
+            phase w d lfend s.
+
+  Lemma maxline_pos : 0 < maxline.
+  Proof. pose proof (bline_len b last pad). lia. Qed.
+
+  Lemma rlob_inv : forall fuel pieces d lfend nread s,
+    P s -> phase (List.concat pieces) d lfend s ->
+    nread = len (List.concat pieces ++ d) ->
+    len (rem s) < Z.of_nat fuel ->
+    exists pieces' s',
+      rlob St rl maxline fuel (dashb b) (dashb b ++ [45; 45]) limit
+           pieces d lfend nread s
+        = RDone pieces' (if last then 1 else 0) nfin s' /\
+      List.concat pieces' = c /\ rem s' = rest /\ P s'.
+  Proof.
+    pose proof maxline_pos as Hmp.
+    induction fuel as [|fuel IH]; intros pieces d lfend nread s Hs Hph Hn Hf.
+    { pose proof (len_nonneg (rem s)). lia. }
+    pose proof (gr_concat _ _ _ _ G maxline s Hs) as Hcat.
+    pose proof (gr_line _ _ _ _ G maxline s Hs) as Hin.
+    pose proof (gr_inv _ _ _ _ G maxline s Hs) as Hs1.
+    pose proof (gr_progress _ _ _ _ G maxline s Hs ltac:(lia)) as Hprog.
+    pose proof (gr_lone_lf _ _ _ _ G maxline maxline s Hs ltac:(lia)) as Hlone.
+    cbn [rlob].
+    destruct Hph as [c2 Hrem Hc Hlf | Hd Hw Hrem Hnext | Hd Hw Hlf Hrem].
+    - (* content *)
+      rewrite (limit_hit_false limit (len c) nread Hlim)
+        by (rewrite Hn, <- Hc, !len_app; pose proof (len_nonneg c2); lia).
+      assert (Hne : fst (rl maxline s) <> []).
+      { apply Hprog. rewrite Hrem. destruct c2; discriminate. }
+      destruct (rl maxline s) as [l s1] eqn:E. cbn [fst snd] in *.
+      rewrite Hrem in Hcat.
+      destruct (boundary_ok_facts b Hb) as (Hchars & _ & _).
+      destruct (step_content b c (List.concat pieces) d lfend l (rem s1) c2 tailz
+                  Hchars Hocc Hc Hlf Hne Hin Hcat)
+        as (piece & d' & lf' & Hstep & Hall & Hlf' & Hcr & Hnext).
+      rewrite (is_nil_false l Hne), Hstep.
+      assert (Hlen : len l + len (rem s1) = len (rem s)).
+      { rewrite Hrem, <- Hcat, len_app. reflexivity. }
+      assert (Hl1 : 1 <= len l).
+      { destruct l; [congruence|]. rewrite len_cons.
+        pose proof (len_nonneg l). lia. }
+      apply IH.
+      + exact Hs1.
+      + rewrite concat_snoc.
+        destruct Hnext as [(c2' & Hu & Hc') | [(Hd' & Hw' & Hu) |
+                                               (Hd' & Hw' & Hlf2 & Hu)]].
+        * apply (PhA _ _ _ _ c2'); [exact Hu | |].
+          -- rewrite <- Hc'. lnorm. reflexivity.
+          -- intros E2. right. apply Hlf'. exact E2.
+        * apply PhB; [exact Hd' | exact Hw' | exact Hu |].
+          apply Hlone; [apply Hcr; exact Hd' | exists tailz; exact Hu].
+        * apply PhC; [exact Hd' | exact Hw' | exact Hlf2 | exact Hu].
+      + rewrite concat_snoc, Hall, len_app, Hn. reflexivity.
+      + lia.
+    - (* the lone LF of the delimiter *)
+      subst d.
+      rewrite (limit_hit_false limit (len c) nread Hlim)
+        by (rewrite Hn, Hw, len_app; change (len [13]) with 1; lia).
+      destruct (rl maxline s) as [l s1] eqn:E. cbn [fst snd] in *.
+      subst l. rewrite Hrem in Hcat. cbn [app] in Hcat.
+      injection Hcat as Hcat.
+      cbn [is_nil]. rewrite step_lone_lf.
+      apply IH.
+      + exact Hs1.
+      + rewrite concat_snoc, app_nil_r.
+        apply PhC; [reflexivity | exact Hw | reflexivity | exact Hcat].
+      + rewrite concat_snoc, app_nil_r, Hn, !len_app.
+        change (len [13; 10]) with 2. change (len [13]) with 1.
+        change (len [10]) with 1. lia.
+      + rewrite Hrem, len_cons, <- Hcat in Hf. lia.
+    - (* the delimiter line *)
+      subst d lfend.
+      rewrite (limit_hit_false limit (len c) nread Hlim)
+        by (rewrite Hn, Hw, len_app; change (len [13; 10]) with 2; lia).
+      pose proof (bline_no_lf b last pad Hb Hpad) as Hnolf.
+      assert (Hread : fst (rl maxline s) = bline b last pad ++ eol /\
+                      rem (snd (rl maxline s)) = rest).
+      { destruct Heol as [He | [He Hr]].
+        - rewrite He. apply (read_line_crlf St rl rem P G); auto.
+          rewrite Hrem. unfold tailz. rewrite He. reflexivity.
+        - assert (Hx : bline b last pad <> []).
+          { pose proof (bline_len b last pad) as H2. intros E.
+            rewrite E in H2. cbn in H2. lia. }
+          rewrite He, Hr, app_nil_r.
+          apply (read_line_eof St rl rem P G); auto.
+          + rewrite Hrem. unfold tailz. rewrite He, Hr, !app_nil_r.
+            reflexivity.
+          + right. lia. }
+      destruct Hread as [Hl Hrest].
+      destruct (rl maxline s) as [l s1] eqn:E. cbn [fst snd] in *.
+      assert (Hne : l <> []).
+      { rewrite Hl. pose proof (bline_len b last pad) as H2. intros E2.
+        apply (f_equal (@len Z)) in E2. rewrite len_app in E2.
+        pose proof (len_nonneg eol). change (len (@nil Z)) with 0 in E2. lia. }
+      rewrite (is_nil_false l Hne), Hl.
+      rewrite (step_delimiter b last pad eol Hb Hpad)
+        by (destruct Heol as [He | [He _]]; auto).
+      exists pieces, s1. split; [|split; [exact Hw | split; [exact Hrest | exact Hs1]]].
+      f_equal. rewrite Hn, Hw, !len_app. change (len [13; 10]) with 2.
+      unfold nfin. lia.
+  Qed.
